@@ -42,6 +42,18 @@ pub struct M2 {
 
 #[repr(C)]
 #[derive(Serialize, Deserialize, Archive, PartialEq, Debug, Clone)]
+pub struct M3 {
+    pub tag: u64,
+}
+
+#[repr(C)]
+#[derive(Serialize, Deserialize, Archive, PartialEq, Debug, Clone)]
+pub struct M4 {
+    pub tag: u64,
+}
+
+#[repr(C)]
+#[derive(Serialize, Deserialize, Archive, PartialEq, Debug, Clone)]
 pub struct Big {
     pub words: [u64; 8],
 }
@@ -115,6 +127,44 @@ macro_rules! svc {
         )+
     };
 }
+
+/// A service type registered under an explicit name (several types may share one name).
+macro_rules! svcn {
+    ($name:ident, $sname:expr, $($msg:ty),+) => {
+        pub struct $name {
+            inst: u64,
+        }
+        impl RpcService for $name {
+            fn service_name() -> &'static str {
+                $sname
+            }
+            fn register_handlers(registry: &mut ServiceRegistry<Self>) {
+                $( registry.add_handler::<$msg>(); )+
+            }
+        }
+        $(
+        #[datacake_rpc::async_trait]
+        impl Handler<$msg> for $name {
+            type Reply = u64;
+            async fn on_message(&self, _msg: Request<$msg>) -> Result<Self::Reply, Status> {
+                Ok(self.inst)
+            }
+        }
+        )+
+    };
+}
+
+svcn!(SvcD, "shared", M1);
+svcn!(SvcE, "shared", M2);
+svcn!(SvcS, "store", M1, M2, M3, M4);
+svcn!(SvcP0, "ping-0", M1);
+svcn!(SvcP1, "ping-1", M1);
+svcn!(SvcP2, "ping-2", M1);
+svcn!(SvcP3, "ping-3", M1);
+svcn!(SvcP4, "ping-4", M1);
+svcn!(SvcP5, "ping-5", M1);
+svcn!(SvcP6, "ping-6", M1);
+svcn!(SvcP7, "ping-7", M1);
 
 svc!(SvcA, M1);
 svc!(SvcB, M1);
@@ -325,6 +375,33 @@ impl Domain for RpcDomain {
                     mutate_frame::<Payload>(&frame)
                 )
             },
+            // narrow message types: archived roots with alignment below 4 and sizes that are not multiples of 4
+            "roundtrip-narrow" => {
+                macro_rules! rt {
+                    ($ty:ty, $v:expr) => {{
+                        let v: $ty = $v;
+                        let frame = datacake_rpc::to_view_bytes(&v).expect("serialize");
+                        let n = frame.len();
+                        let trailer_ok = n >= 4
+                            && u32::from_le_bytes(frame[n - 4..].try_into().unwrap()) == crc32fast::hash(&frame[..n - 4]);
+                        let same = DataView::<$ty>::using(frame.clone())
+                            .map(|view| view.deserialize_view().map(|d| d == v).unwrap_or(false))
+                            .unwrap_or(false);
+                        format!("roundtrip len={} trailer_ok={} same={} {}", n, trailer_ok, same, mutate_frame::<$ty>(&frame))
+                    }};
+                }
+                let b = unhex(t[2]);
+                let at = |i: usize| b.get(i).copied().unwrap_or(0);
+                match t[1] {
+                    "u8" => rt!(u8, at(0)),
+                    "bool" => rt!(bool, at(0) & 1 == 1),
+                    "u16" => rt!(u16, u16::from_le_bytes([at(0), at(1)])),
+                    "a3" => rt!([u8; 3], [at(0), at(1), at(2)]),
+                    "a5" => rt!([u8; 5], [at(0), at(1), at(2), at(3), at(4)]),
+                    "a7" => rt!([u8; 7], [at(0), at(1), at(2), at(3), at(4), at(0), at(1)]),
+                    _ => "bad-op".to_string(),
+                }
+            },
             "roundtrip-status" => {
                 let v = Status { code: code_of(p_u64(t[1]) as u8), message: String::from_utf8(unhex(t[2])).expect("utf8") };
                 let frame = datacake_rpc::to_view_bytes(&v).expect("serialize");
@@ -365,6 +442,17 @@ impl Domain for RpcDomain {
                     "A" => srv.add_service(SvcA { inst }),
                     "B" => srv.add_service(SvcB { inst }),
                     "C" => srv.add_service(SvcC { inst }),
+                    "D" => srv.add_service(SvcD { inst }),
+                    "E" => srv.add_service(SvcE { inst }),
+                    "S" => srv.add_service(SvcS { inst }),
+                    "P0" => srv.add_service(SvcP0 { inst }),
+                    "P1" => srv.add_service(SvcP1 { inst }),
+                    "P2" => srv.add_service(SvcP2 { inst }),
+                    "P3" => srv.add_service(SvcP3 { inst }),
+                    "P4" => srv.add_service(SvcP4 { inst }),
+                    "P5" => srv.add_service(SvcP5 { inst }),
+                    "P6" => srv.add_service(SvcP6 { inst }),
+                    "P7" => srv.add_service(SvcP7 { inst }),
                     _ => return "bad-op".to_string(),
                 }
                 "ok".to_string()
@@ -375,6 +463,16 @@ impl Domain for RpcDomain {
                     "A" => srv.remove_service(SvcA::service_name()),
                     "B" => srv.remove_service(SvcB::service_name()),
                     "C" => srv.remove_service(SvcC::service_name()),
+                    "D" | "E" => srv.remove_service("shared"),
+                    "S" => srv.remove_service("store"),
+                    "P0" => srv.remove_service("ping-0"),
+                    "P1" => srv.remove_service("ping-1"),
+                    "P2" => srv.remove_service("ping-2"),
+                    "P3" => srv.remove_service("ping-3"),
+                    "P4" => srv.remove_service("ping-4"),
+                    "P5" => srv.remove_service("ping-5"),
+                    "P6" => srv.remove_service("ping-6"),
+                    "P7" => srv.remove_service("ping-7"),
                     _ => return "bad-op".to_string(),
                 }
                 "ok".to_string()
@@ -387,6 +485,20 @@ impl Domain for RpcDomain {
                     ("B", "M1") => runtime().block_on(RpcClient::<SvcB>::new(ch).send(&M1 { tag: 1 })).map(|r| r.deserialize_view().unwrap_or(u64::MAX)),
                     ("C", "M1") => runtime().block_on(RpcClient::<SvcC>::new(ch).send(&M1 { tag: 1 })).map(|r| r.deserialize_view().unwrap_or(u64::MAX)),
                     ("C", "M2") => runtime().block_on(RpcClient::<SvcC>::new(ch).send(&M2 { tag: 2 })).map(|r| r.deserialize_view().unwrap_or(u64::MAX)),
+                    ("D", "M1") => runtime().block_on(RpcClient::<SvcD>::new(ch).send(&M1 { tag: 1 })).map(|r| r.deserialize_view().unwrap_or(u64::MAX)),
+                    ("E", "M2") => runtime().block_on(RpcClient::<SvcE>::new(ch).send(&M2 { tag: 2 })).map(|r| r.deserialize_view().unwrap_or(u64::MAX)),
+                    ("S", "M1") => runtime().block_on(RpcClient::<SvcS>::new(ch).send(&M1 { tag: 1 })).map(|r| r.deserialize_view().unwrap_or(u64::MAX)),
+                    ("S", "M2") => runtime().block_on(RpcClient::<SvcS>::new(ch).send(&M2 { tag: 2 })).map(|r| r.deserialize_view().unwrap_or(u64::MAX)),
+                    ("S", "M3") => runtime().block_on(RpcClient::<SvcS>::new(ch).send(&M3 { tag: 3 })).map(|r| r.deserialize_view().unwrap_or(u64::MAX)),
+                    ("S", "M4") => runtime().block_on(RpcClient::<SvcS>::new(ch).send(&M4 { tag: 4 })).map(|r| r.deserialize_view().unwrap_or(u64::MAX)),
+                    ("P0", "M1") => runtime().block_on(RpcClient::<SvcP0>::new(ch).send(&M1 { tag: 1 })).map(|r| r.deserialize_view().unwrap_or(u64::MAX)),
+                    ("P1", "M1") => runtime().block_on(RpcClient::<SvcP1>::new(ch).send(&M1 { tag: 1 })).map(|r| r.deserialize_view().unwrap_or(u64::MAX)),
+                    ("P2", "M1") => runtime().block_on(RpcClient::<SvcP2>::new(ch).send(&M1 { tag: 1 })).map(|r| r.deserialize_view().unwrap_or(u64::MAX)),
+                    ("P3", "M1") => runtime().block_on(RpcClient::<SvcP3>::new(ch).send(&M1 { tag: 1 })).map(|r| r.deserialize_view().unwrap_or(u64::MAX)),
+                    ("P4", "M1") => runtime().block_on(RpcClient::<SvcP4>::new(ch).send(&M1 { tag: 1 })).map(|r| r.deserialize_view().unwrap_or(u64::MAX)),
+                    ("P5", "M1") => runtime().block_on(RpcClient::<SvcP5>::new(ch).send(&M1 { tag: 1 })).map(|r| r.deserialize_view().unwrap_or(u64::MAX)),
+                    ("P6", "M1") => runtime().block_on(RpcClient::<SvcP6>::new(ch).send(&M1 { tag: 1 })).map(|r| r.deserialize_view().unwrap_or(u64::MAX)),
+                    ("P7", "M1") => runtime().block_on(RpcClient::<SvcP7>::new(ch).send(&M1 { tag: 1 })).map(|r| r.deserialize_view().unwrap_or(u64::MAX)),
                     _ => return "bad-op".to_string(),
                 };
                 match res {
